@@ -251,6 +251,7 @@ class Verifier:
                 return (gen.env.vars["stop"], gen.env.vars["start"])
             sq.ns["at_state"] = N("spec.seq.at_state", at_state)
             sq.ns["gen_args"] = N("spec.seq.gen_args", gen_args)
+            sq.ns["gen_val"] = N("spec.seq.gen_val", lambda gen: gen.env.vars["val"])
         self.base_ns.update({
             "same": N("same", lambda a, b: it.eq(a, b)),      # value identity (NaN equals NaN), as the native comparison
             "implies": N("implies", implies), "stream_of": N("stream_of", stream_of),
